@@ -206,3 +206,22 @@ package table
 //@ func NewReader
 //@   props C19
 //@   trusted
+
+// C08 / C13: every data block a lookup reads is read with the reader's checksum setting (so that altered bytes are
+// reported, not served), whichever of the two places in find fetches it.
+//@ func (*Reader).find
+//@   props C13 C08
+//@   safety off
+//@   at before call (*Reader).getDataIter#1
+//@     assert [C08,C13:data-block-read-with-the-readers-checksum-setting] arg2 == r.verifyChecksum
+//@   at before call (*Reader).getDataIter#2
+//@     assert [C08,C13:data-block-read-with-the-readers-checksum-setting] arg2 == r.verifyChecksum
+//@ func (*Reader).getDataIter
+//@   props C13 C08
+//@   trusted
+//@ func (*Reader).getIndexBlock
+//@   props C13 C08
+//@   trusted
+//@ func (*Reader).getFilterBlock
+//@   props C13 C08
+//@   trusted
